@@ -132,7 +132,29 @@ func closedCheck(k *h.Case, rp *spec.Program, out string, tag string) bool {
 	if !okAll {
 		return false
 	}
-	_ = lm
+	// independent of the alignment above: every argument token of an instruction that is a hoisted label of the
+	// model must be defined in the output
+	hoisted := map[string]bool{}
+	for _, t := range lm.Texts {
+		hoisted[t.Label] = true
+	}
+	for _, m := range lm.Moves {
+		hoisted[m.Label] = true
+	}
+	for i := range f.Lines {
+		l := &f.Lines[i]
+		if l.Kind != asm.KInstr || l.IsData() {
+			continue
+		}
+		for _, tok := range strings.FieldsFunc(l.Args, func(r rune) bool { return r == ',' || r == ' ' || r == '\t' || r == '(' || r == ')' }) {
+			if hoisted[tok] {
+				if len(f.Labels[tok]) == 0 {
+					return bad("undefined-hoisted-label", "line %d: %q uses the hoisted label %q, which is not defined in the output", i+1, strings.TrimSpace(l.Text), tok)
+				}
+				k.Count("hoisted_label_uses_checked", 1)
+			}
+		}
+	}
 	// (c) user labels present once, inside their script's section; (d) section ends in a terminator
 	bnd := boundaryOf(rp, f)
 	for _, s := range scriptsOf(rp) {
@@ -206,10 +228,11 @@ func runC04(ctx *h.Ctx) int {
 				k.Count("rejected", 1)
 				k.Count("rejected: "+rejectFamily(res.ErrString()), 1)
 				debugReject(pr.Src, res.ErrString())
+				rejectedValid(k, prog, res, false)
 				return
 			}
 			if rerr != nil {
-				k.Count("accepted_without_selected_case", 1)
+				acceptedUnmatched(k)
 				return
 			}
 			k.Count("accepted", 1)
@@ -267,6 +290,7 @@ func runC04(ctx *h.Ctx) int {
 			if !res.OK() {
 				k.Count("rejected", 1)
 				k.Count("rejected: "+rejectFamily(res.ErrString()), 1)
+				rejectedValid(k, prog, res, false)
 				return
 			}
 			k.Count("accepted", 1)
@@ -277,6 +301,82 @@ func runC04(ctx *h.Ctx) int {
 		}
 		k.Count("digit_suffixed_files_checked", 1)
 		k.Nontrivial("digits", len(prog.Items), len(src)/200)
+	})
+	// the same text / movement name written twice, and one map script type used for two label-bearing entries: the
+	// compiler promises to reject these; whatever it accepts must define every label once
+	ctx.RunCases("repeated-definitions", ctx.N(600, 30000), func(k *h.Case) {
+		g := spec.NewGen(k.R, prof)
+		prog := g.FullProgram(2 + k.R.IntN(4))
+		what := ""
+		switch k.R.IntN(3) {
+		case 0:
+			var ts []*spec.TextItem
+			for _, it := range prog.Items {
+				if t, ok := it.(*spec.TextItem); ok {
+					ts = append(ts, t)
+				}
+			}
+			name := g.Name("TxtTwice")
+			if len(ts) > 0 {
+				name = ts[k.R.IntN(len(ts))].Name
+			} else {
+				prog.Items = append(prog.Items, &spec.TextItem{ID: prog.NewID(), Name: name, Val: &spec.TextVal{ID: prog.NewID(), Parts: []string{"first"}}})
+			}
+			dup := &spec.TextItem{ID: prog.NewID(), Name: name, Scope: k.R.IntN(3), Val: &spec.TextVal{ID: prog.NewID(), Parts: []string{"second definition"}}}
+			at := k.R.IntN(len(prog.Items) + 1)
+			prog.Items = append(prog.Items[:at:at], append([]spec.Item{dup}, prog.Items[at:]...)...)
+			what = "two text statements with one name"
+		case 1:
+			name := g.Name("MovTwice")
+			for _, it := range prog.Items {
+				if m, ok := it.(*spec.MovementItem); ok {
+					name = m.Name
+				}
+			}
+			prog.Items = append(prog.Items, &spec.MovementItem{ID: prog.NewID(), Name: name, Steps: []*spec.ListElem{{ID: prog.NewID(), Name: "walk_up"}}})
+			dup := &spec.MovementItem{ID: prog.NewID(), Name: name, Scope: k.R.IntN(3), Steps: []*spec.ListElem{{ID: prog.NewID(), Name: "walk_down"}}}
+			at := k.R.IntN(len(prog.Items) + 1)
+			prog.Items = append(prog.Items[:at:at], append([]spec.Item{dup}, prog.Items[at:]...)...)
+			what = "two movement statements with one name"
+		default:
+			m := &spec.MapScripts{ID: prog.NewID(), Name: g.Name("MapTwice")}
+			typ := "MAP_SCRIPT_ON_FRAME_TABLE"
+			mk := func(kind int) *spec.MSEntry {
+				e := &spec.MSEntry{ID: prog.NewID(), Type: typ, Kind: kind}
+				if kind == 1 {
+					e.Body = &spec.Block{ID: prog.NewID(), Stmts: []spec.Stmt{&spec.CmdStmt{Cmd: g.Cmd()}}}
+				} else {
+					e.Rows = []*spec.MSRow{{ID: prog.NewID(), Var: []string{"VAR_A"}, Value: []string{"0"}, Label: g.Name("Target")}}
+				}
+				return e
+			}
+			m.Entries = []*spec.MSEntry{mk(1 + k.R.IntN(2)), {ID: prog.NewID(), Type: "MAP_SCRIPT_ON_LOAD", Kind: 0, Label: g.Name("Target")}, mk(1 + k.R.IntN(2))}
+			prog.Items = append(prog.Items, m)
+			what = "one map script type for two label-bearing entries"
+		}
+		src := spec.Source(prog)
+		k.SetSource(src)
+		for _, opt := range []bool{true, false} {
+			res := h.Compile(src, optsOf(prog, opt))
+			k.Count("evaluations", 1)
+			if res.Panic != nil {
+				k.Violation("compiler-panic", fmt.Sprintf("panic: %v", res.Panic), nil)
+				return
+			}
+			if !res.OK() {
+				k.Count("repeated_definitions_rejected", 1)
+				continue
+			}
+			f := asm.Parse(res.Out)
+			for name, defs := range f.Labels {
+				if len(defs) > 1 {
+					k.Violation("label-defined-twice", fmt.Sprintf("[optimize=%v] %s: the file is accepted and label %q is defined %d times (lines %v)", opt, what, name, len(defs), defs), map[string]interface{}{"output": res.Out})
+					return
+				}
+			}
+			k.Count("repeated_definitions_accepted_with_unique_labels", 1)
+		}
+		k.Nontrivial("repdef", what, len(prog.Items))
 	})
 	rejectGuard(ctx, 0.35)
 	return ctx.Finish(
